@@ -123,6 +123,26 @@ Theorem C09_no_double_count_sum : forall sb own parent fld l,
 Proof. exact no_double_count_sum. Qed.
 Print Assumptions C09_no_double_count_sum.
 
+(* whatever the size of the file (no bound on the number of lines, hence none on its length in
+   bytes: beyond the 32 KiB read buffer, 64 KiB, ...): /proc/diskstats has one line per device and
+   the per-disk answer one entry per line, in file order, keyed by that line's device (all layouts);
+   together with C09_disk_total the system-wide form is the sum over ALL listed whole disks *)
+Theorem C09_disk_one_entry_per_line : forall sb l,
+  wf_disks l = true ->
+  length (lines_keep (text_of (k_diskstats l))) = length l /\
+  exists d, disk_io_counters true sb (ProcDiskstats (k_diskstats l)) = Val (RDict d)
+            /\ map fst d = map (fun x => dec (d_name x)) l /\ length d = length l.
+Proof. exact disk_one_entry_per_line. Qed.
+Print Assumptions C09_disk_one_entry_per_line.
+
+Theorem C09_net_one_entry_per_line : forall sp l,
+  wf_nics l = true ->
+  length (lines_keep (text_of (k_netdev sp l))) = (2 + length l)%nat /\
+  exists d, net_io_counters false true (k_netdev sp l) = XV (Val (RDict d))
+            /\ map fst d = map (fun i => dec (n_name i)) l /\ length d = length l.
+Proof. exact net_one_entry_per_line. Qed.
+Print Assumptions C09_net_one_entry_per_line.
+
 (* known finding: the kernel documentation's own 2.4 example line is read one column off
    (#blocks as read_count, ...) *)
 Theorem C09_disk_l24_refuted :
